@@ -48,7 +48,7 @@ def plan(tier):
         specs = [{"part": "pair", "mtus": list(range(512 + i, 1501, 8 * 8)), "kmax": 2, "stride": 2} for i in range(0, 64, 8)]
         specs += [{"part": "pair", "mtus": [1088, 1089, 1090, 1091, 1092, 1093, 1094, 1095, 1096, 1097], "kmax": 2, "stride": 2}]
         specs += [{"part": "limit"}]
-        specs += [{"part": "world", "n": 250, "i": i, "strict": i % 2 == 0} for i in range(7)]
+        specs += [{"part": "world", "n": 160, "i": i, "strict": i % 2 == 0} for i in range(7)]
         return specs
     specs = [{"part": "pair", "mtus": list(range(512 + i, 1501, 16)), "kmax": 4, "stride": 1} for i in range(16)]
     specs += [{"part": "limit"}]
